@@ -847,6 +847,18 @@ class TreeTransposeMap(BroadcastVocabulary):
         return out
 
 
+@pycontract
+class TreeTransposeMapWithPath(TreeTransposeMap):
+    function = 'tree_transpose_map_with_path'
+    first = ('path',)
+
+
+@pycontract
+class TreeTransposeMapWithAccessor(TreeTransposeMap):
+    function = 'tree_transpose_map_with_accessor'
+    first = ('accessor',)
+
+
 # ======================================================================================================================
 # C04: accessor.py - equal path entries / accessors hash equally (relational obligation over __eq__ and __hash__)
 
